@@ -85,7 +85,7 @@ def job2(j):
 def long_and_oneshot(out, rng):
     """implementation against the statement, for what the extracted model is too slow for or cannot carry: (a) a message M that is a very
     long sysex (65 534 .. 70 000 data bytes; a sysex has no length limit) after prefixes, in concatenations and with real-time bytes inside;
-    (b) the stream handed over as a one-shot iterator / generator / itertools.chain (Parser.feed documents any iterable)"""
+    (b) the stream handed over as a one-shot iterator / generator / itertools.chain (Parser.feed documents any iterable) and as bytes / bytearray / tuple / memoryview, the message taken from the boundary values half of the time"""
     import itertools
     import mido
     n = 0
@@ -110,12 +110,18 @@ def long_and_oneshot(out, rng):
             expect('long sysex with a real-time byte inside', mido.parser.parse_all([0xf0] + body[:k] + [0xfe] + body[k:] + [0xf7]), [[0xfe], syx])
         except Exception as e:  # noqa: BLE001
             out.failures.append(('resync-long-raises', 'a sysex of %d data bytes raised %r' % (size, e), {'component': 'long-and-oneshot'}))
-    for _ in range(200):
+    bnd = canon.boundary_messages()
+    rng.shuffle(bnd)
+    for trial in range(500):
         P = pc.random_stream(rng, 12)
-        mi = canon.random_message(rng, sysex_max=6)
+        # every other message from the boundary values of its type (0, 1, 63, 64, 126, 127, ...): the containers below must not care
+        mi = canon.random_message(rng, sysex_max=6) if trial % 2 else bnd[trial % len(bnd)]
+        if mi[0] == 7 and mi[1] > 40:
+            mi = [7, 3, 127, 0, 127]
         enc = canon.std_layout(mi)
         want = [m.bytes() for m in mido.parser.parse_all(P)] + [enc]
-        for what, make in (('iter', lambda: iter(P + enc)), ('generator', lambda: (b for b in P + enc)), ('chain', lambda: itertools.chain(P, enc)), ('map', lambda: map(int, P + enc))):
+        for what, make in (('iter', lambda: iter(P + enc)), ('generator', lambda: (b for b in P + enc)), ('chain', lambda: itertools.chain(P, enc)), ('map', lambda: map(int, P + enc)),
+                           ('bytes', lambda: bytes(P + enc)), ('bytearray', lambda: bytearray(P + enc)), ('tuple', lambda: tuple(P + enc)), ('memoryview', lambda: memoryview(bytes(P + enc)))):
             n += 1
             try:
                 expect('prefix %r + %r given as %s' % (P, enc, what), mido.parser.parse_all(make()), want)
